@@ -157,13 +157,16 @@ impl SampleQueueReceiver {
     pub async fn recv(&mut self) -> Option<MediaSample> {
         loop {
             {
+                // Read `closed` before popping so that a sample pushed right
+                // before the sender closed is still delivered (see track.rs).
+                let closed = self.closed.load(std::sync::atomic::Ordering::Acquire);
                 let _guard = self.pop_lock.lock();
                 if let Some(sample) = self.queue.pop() {
                     return Some(sample);
                 }
                 #[cfg(rustrtc_verif)]
                 crate::media::verif_sched::point("pipeline.recv.after_empty_pop");
-                if self.closed.load(std::sync::atomic::Ordering::Acquire) {
+                if closed {
                     return None;
                 }
             }
